@@ -20,7 +20,16 @@ RULE = ('write/read_value/reopen histories over keys of every UTF-8 length modul
         'initial size; observation after EVERY step: the first `used` bytes of the file, read_all_values(), '
         'read_all_values_from_file(), read_value(); after a call that raised also: whole file (length and bytes) unchanged, '
         'read_value of every stored key through the same handle; non-trivial = at least one overwrite or reopen or growth or '
-        'refused call; distinct by case')
+        'refused call; distinct by case.  RESULTS HELD ALIVE (`prog` cases): programs over 1-3 store files at once that ask '
+        'read_all_values_from_file() / read_all_values() and KEEP the lazy result while other calls are made - reads of other '
+        'files, further reads of the same file, writes (new keys, overwrites), growth, close + reopen - and consume the held '
+        'results later: all at once, in order / reversed, in pieces, element by element interleaved (zip / merge of two '
+        'processes\' files); files with equal keys and different values, empty and one-entry files, files beyond the reader\'s '
+        'first block (second read()); every result of the file reader must equal the state of ITS file at the moment of ITS '
+        'call (model: a held result is the value read_all_from_file pg b; each file is its own model world), a handle result '
+        'consumed while its file is unchanged likewise, a handle result consumed across later writes must give every key once in '
+        'first-write order with a pair the key held between the call and the delivery; structured programs first, then one random '
+        'program per two random histories; non-trivial prog = a result held across another read call or a change of its file')
 TRUSTED = ['the strict UTF-8 decoder inverts the encoder on the byte strings the encoder produces (the encoder itself is modelled, '
            'compared with CPython by the correspondence and proved injective; stored keys are byte strings in the model)',
            'a non-str key is never equal to a stored str key; hash() raises TypeError on list/dict/set/bytearray; int, float, bool, '
@@ -30,8 +39,12 @@ TRUSTED = ['the strict UTF-8 decoder inverts the encoder on the byte strings the
 ASSUMPTIONS = ['total used bytes < 2^31 (struct i)',
                'a key that is refused (raises before anything changed) is outside "what was written"; a key that is accepted '
                'must read back as the same object; exception classes compared as ValueError vs other',
+               'a result of read_all_values_from_file denotes the content of the file at the moment of the call, whenever it is '
+               'consumed; read_all_values() of a handle is a view of the live mapping: consumed across later writes it may show the '
+               'pair of the call or any later pair (both readings of "most recently written" accepted), consumed after a close of '
+               'that handle it may raise',
                'the file length itself is not observed (C10 does not fix it): only file length >= used bytes is checked']
-TIME_BUDGET = {'quick': 95, 'thorough': 900}
+TIME_BUDGET = {'quick': 125, 'thorough': 900}
 
 BLOB_LIMIT = 4096
 KEY_LIMIT = 64
@@ -272,6 +285,8 @@ def refused_cases(ctx):
 
 def cases(ctx):
     rng = ctx.rng
+    for c in prog_structured(ctx):
+        yield c
     for c in refused_cases(ctx):
         yield c
     # --- every encoded length modulo 8, single- and multi-byte, at the real initial size
@@ -333,6 +348,8 @@ def cases(ctx):
         if i % 3 == 0:
             ops = sprinkle_refused(rng, ops)
         yield {'isz': isz, 'ops': ops}
+        if i % 2 == 0:
+            yield rand_prog(rng)
 
 
 # ---------------------------------------------------------------- implementation side
@@ -406,6 +423,8 @@ class patched_isz:
 
 
 def impl(case):
+    if 'prog' in case:
+        return impl_prog(case)
     import prometheus_client.mmap_dict as mod
     tmp = tempfile.mkdtemp(prefix='c10-')
     path = os.path.join(tmp, 'counter_1.db')
@@ -545,11 +564,15 @@ def sx_pops(ops):
 
 def model(m, case):
     import mmap
+    if 'prog' in case:
+        return model_prog(m, case)
     r = m.call('c10_prun', case['isz'], mmap.PAGESIZE, BLOB_LIMIT, sx_pops(case['ops']))
     return [d_step(s) for s in r]
 
 
 def same(i, mo):
+    if isinstance(i, dict) or isinstance(mo, dict):
+        return isinstance(i, dict) and isinstance(mo, dict) and prog_comparable(i) == prog_comparable(mo)
     i2 = [s for s in i if not isinstance(s, dict)]
     return i2 == mo
 
@@ -580,6 +603,8 @@ def step_raised(s):
 
 
 def direct(case, obs):
+    if 'prog' in case:
+        return direct_prog(case, obs)
     ops = case['ops']
     steps = [s for s in obs if not isinstance(s, dict)]
     raised = [i + 1 < len(steps) and step_raised(steps[i + 1]) for i in range(len(ops))]
@@ -661,6 +686,8 @@ def _diff(got, exp):
 
 
 def nontrivial(case, obs):
+    if 'prog' in case:
+        return any(c.startswith('held-across=') for c in classify_prog(case, obs))
     ops = case['ops']
     seen = []
     for op in ops:
@@ -696,6 +723,8 @@ def key_class(k):
 
 
 def classify(case, obs):
+    if 'prog' in case:
+        return classify_prog(case, obs)
     out = []
     ops = case['ops']
     out.append('isz=real' if case['isz'] == 65536 else 'isz=patched-small')
@@ -742,6 +771,8 @@ def classify(case, obs):
 
 
 def neighbours(case):
+    if 'prog' in case:
+        return list(shrinks_prog(case))[:60]
     out = []
     ops = case['ops']
     for i in range(len(ops)):
@@ -751,6 +782,10 @@ def neighbours(case):
 
 
 def shrinks(case):
+    if 'prog' in case:
+        for c in shrinks_prog(case):
+            yield c
+        return
     ops = case['ops']
     n = len(ops)
     if n > 1:
@@ -767,3 +802,400 @@ def shrinks(case):
             body = op[1]['cps']
             for j in range(len(body)):
                 yield {'isz': case['isz'], 'ops': ops[:i] + [[op[0], {'cps': body[:j] + body[j + 1:]}] + op[2:]] + ops[i + 1:]}
+
+
+# ================================================================ results held alive and consumed later
+# A `prog` case drives nf store files at once and keeps results of the lazy read paths alive:
+#   ['W', f, key, vbits, tbits] / ['R', f, key] / ['O', f]   write_value / read_value / close + reopen on file f
+#   ['H', f, 'F']      ask MmapedDict.read_all_values_from_file(path_f) and KEEP the result (id = number of H before it)
+#   ['H', f, 'D']      ask handle_f.read_all_values() and keep the result
+#   ['N', id, n]       consume up to n further elements of held result id (n < 0: all that are left)
+# after the program every held result is drained (in id order) and every file is read at once through both paths.
+# Time t = number of program ops executed (0 = all files open); the final drain happens at t = len(prog).
+def prog_plan(case):
+    """for every held result: (file, kind, t_hold, t_end, quiet); t_end = the moment it is certainly exhausted (its first
+    consume-all, else the final drain); quiet = its file does not change and is not reopened in (t_hold, t_end]"""
+    prog = case['prog']
+    ref = reference_prog(case)
+    plan = []
+    for t, op in enumerate(prog):
+        if op[0] == 'H':
+            hid = len(plan)
+            t_end = len(prog)
+            for u in range(t + 1, len(prog)):
+                if prog[u][0] == 'N' and prog[u][1] == hid and prog[u][2] < 0:
+                    t_end = u + 1
+                    break
+            f = op[1]
+            quiet = all(ref[f][u] == ref[f][t + 1] for u in range(t + 1, t_end + 1)) and \
+                not any(prog[u][0] == 'O' and prog[u][1] == f for u in range(t + 1, min(t_end, len(prog))))
+            plan.append((f, op[2], t + 1, t_end, quiet))
+    return plan
+
+
+def reference_prog(case):
+    """per file: the last-write-wins map in first-write order at every time t"""
+    nf = case['nf']
+    cur = [[] for _ in range(nf)]
+    ref = [[[]] for _ in range(nf)]
+    for op in case['prog']:
+        if op[0] in ('W', 'R'):
+            c = cur[op[1]]
+            ck = ckey(key_str(op[2]))
+            hit = [e for e in c if e[0] == ck]
+            if op[0] == 'W':
+                if hit:
+                    hit[0][1:] = [op[3], op[4]]
+                else:
+                    c.append([ck, op[3], op[4]])
+            elif not hit:
+                c.append([ck, 0, 0])
+        for f in range(nf):
+            ref[f].append([list(e) for e in cur[f]])
+    return ref
+
+
+def impl_prog(case):
+    import prometheus_client.mmap_dict as mod
+    nf, prog = case['nf'], case['prog']
+    tmp = tempfile.mkdtemp(prefix='c10-')
+    paths = [os.path.join(tmp, 'counter_%d.db' % (f + 1)) for f in range(nf)]
+    ds = [None] * nf
+    old = []            # handles replaced by a reopen: closed, but a held result may still refer to them
+    held = []           # {'it': iterator or None, 'chunks': [[t, entries]], 'st': 'ok' | 'done' | ['err', kind]}
+    steps = []
+    plan = prog_plan(case)
+
+    def pull(h, n, t):
+        got = []
+        while h['st'] == 'ok' and (n < 0 or len(got) < n):
+            try:
+                e = next(h['it'])
+                got += canon_entries([e])
+            except StopIteration:
+                h['st'] = 'done'
+            except Exception as e:      # noqa: any exception is an observation
+                h['st'] = ['err', exc_kind(e)]
+        if got:
+            h['chunks'].append([t, got])
+
+    try:
+        with patched_isz(mod, case['isz']):
+            try:
+                for f in range(nf):
+                    ds[f] = mod.MmapedDict(paths[f])
+                for t, op in enumerate(prog):
+                    if op[0] == 'W':
+                        ds[op[1]].write_value(key_str(op[2]), frombits(op[3]), frombits(op[4]))
+                        steps.append(None)
+                    elif op[0] == 'R':
+                        v, ts = ds[op[1]].read_value(key_str(op[2]))
+                        steps.append([bits(v), bits(ts)])
+                    elif op[0] == 'O':
+                        ds[op[1]].close()
+                        old.append(ds[op[1]])
+                        ds[op[1]] = mod.MmapedDict(paths[op[1]])
+                        steps.append(None)
+                    elif op[0] == 'H':
+                        h = {'chunks': [], 'st': 'ok', 'it': None}
+                        try:
+                            r = mod.MmapedDict.read_all_values_from_file(paths[op[1]]) if op[2] == 'F' \
+                                else ds[op[1]].read_all_values()
+                            h['it'] = iter(r)
+                        except Exception as e:      # noqa
+                            h['st'] = ['err', exc_kind(e)]
+                        held.append(h)
+                        steps.append(None)
+                    else:
+                        pull(held[op[1]], op[2], t + 1)
+                        steps.append(None)
+            except Exception as e:
+                return {'prog': {'err': [len(steps), exc_kind(e)]}}
+            for h in held:
+                pull(h, -1, len(prog))
+            final = []
+            for f in range(nf):
+                final.append([attempt(lambda: canon_entries(ds[f].read_all_values())),
+                              attempt(lambda: canon_entries(mod.MmapedDict.read_all_values_from_file(paths[f])))])
+    finally:
+        for h in held:
+            h['it'] = None
+        for d in ds + old:
+            try:
+                if d is not None:
+                    d.close()
+            except Exception:
+                pass
+        shutil.rmtree(tmp, ignore_errors=True)
+    out = []
+    for h, (f, kind, t0, t1, quiet) in zip(held, plan):
+        entries = [e for _, es in h['chunks'] for e in es]
+        out.append({'value': ['ok', entries] if h['st'] == 'done' else h['st'], 'chunks': h['chunks'],
+                    'compare': kind == 'F' or quiet})
+    return {'prog': {'held': out, 'peeks': steps, 'final': final}}
+
+
+def prog_comparable(obs):
+    """what the correspondence compares: the value of every held result of the file reader and of every handle result
+    whose file did not change before it was consumed; the values read_value returned; the files at the end"""
+    p = obs['prog']
+    if 'err' in p:
+        return p
+    return [[h['value'] if h['compare'] else 'live' for h in p['held']], p['peeks'], p['final']]
+
+
+def model_prog(m, case):
+    """every file is a world of its own in the model: its history is the projection of the program on the file, and a
+    result held at a moment IS the model's read path applied to the file of that moment (a value; MmapDict.v, `held`)"""
+    import mmap
+    nf, prog = case['nf'], case['prog']
+    local = [[] for _ in range(nf)]
+    for op in prog:
+        if op[0] in ('W', 'R', 'O'):
+            local[op[1]].append([op[0]] + op[2:])
+    runs = []
+    for f in range(nf):
+        r = m.call('c10_prun', case['isz'], mmap.PAGESIZE, BLOB_LIMIT, sx_pops(local[f]))
+        runs.append([d_step(s) for s in r])
+    done = [0] * nf
+    held, peeks = [], []
+    plan = prog_plan(case)
+    for op in prog:
+        peek = None
+        if op[0] in ('W', 'R', 'O'):
+            done[op[1]] += 1
+            st = runs[op[1]][done[op[1]]] if done[op[1]] < len(runs[op[1]]) else ['err', 'stopped']
+            if st[0] == 'err':
+                return {'prog': {'err': [len(peeks), st[1]]}}
+            if op[0] == 'R':
+                peek = st[5][1] if st[5] and st[5][0] == 'ok' else st[5]
+        elif op[0] == 'H':
+            f, kind, t0, t1, quiet = plan[len(held)]
+            st = runs[f][done[f]]
+            held.append({'value': st[4] if kind == 'F' else st[3], 'compare': kind == 'F' or quiet})
+        peeks.append(peek)
+    final = [[runs[f][done[f]][3], runs[f][done[f]][4]] for f in range(nf)]
+    return {'prog': {'held': held, 'peeks': peeks, 'final': final}}
+
+
+def _pshort(op):
+    if op[0] in ('W', 'R'):
+        k = key_str(op[2])
+        return [op[0], 'file %d' % op[1], k if len(k) <= 24 else k[:10] + '...(%d chars)' % len(k)] + op[3:]
+    return op
+
+
+def direct_prog(case, obs):
+    p = obs['prog']
+    prog, nf = case['prog'], case['nf']
+    if 'err' in p:
+        return 'step %d %r raised %s' % (p['err'][0] + 1, _pshort(prog[p['err'][0]]) if p['err'][0] < len(prog) else 'open', p['err'][1])
+    ref = reference_prog(case)
+    plan = prog_plan(case)
+    for t, (op, pk) in enumerate(zip(prog, p['peeks'])):
+        if op[0] == 'R':
+            want = [[v, ts] for kk, v, ts in ref[op[1]][t + 1] if kk == ckey(key_str(op[2]))][0]
+            if pk != want:
+                return 'after step %d %r: read_value returned %r, expected %r' % (t + 1, _pshort(op), pk, want)
+    for hid, (h, (f, kind, t0, t1, quiet)) in enumerate(zip(p['held'], plan)):
+        name = ('read_all_values_from_file() of file %d' if kind == 'F' else 'read_all_values() of the handle of file %d') % f
+        when = [c[0] for c in h['chunks']]
+        between = [_pshort(prog[u]) for u in range(t0, min(t1, len(prog))) if prog[u][0] != 'N' or prog[u][1] != hid]
+        what = '%s asked after step %d (result %d), consumed at step(s) %s, after %d other call(s) %s' % (
+            name, t0 - 1, hid, when[:6] or 'end', len(between), between[:4])
+        exp = ref[f][t0]
+        val = h['value']
+        got = [e for _, es in h['chunks'] for e in es]
+        if kind == 'F' or quiet:
+            # the result must be the state of ITS file at the moment of ITS call
+            if val[0] != 'ok':
+                return '%s: raised %s after %d entries on an intact file; expected the %d entries the file held at the call' % (
+                    what, val[1], len(got), len(exp))
+            if val[1] != exp:
+                return '%s: %s (expected = the file as it was at the call)' % (what, _diff(val[1], exp))
+            continue
+        # a view of the handle consumed while its file changed: every key once, in first-write order, each with a pair it
+        # held between the call and its delivery; after a close of that handle an exception is accepted too
+        closed = any(prog[u][0] == 'O' and prog[u][1] == f for u in range(t0, min(t1, len(prog))))
+        if val[0] != 'ok' and not closed:
+            return '%s: raised %s after %d entries (the handle is open)' % (what, val[1], len(got))
+        keys_now = [e[0] for e in ref[f][t1]]
+        gk = [e[0] for e in got]
+        if gk != keys_now[:len(gk)]:
+            return '%s: keys %r are not the file\'s keys in first-write order %r' % (what, gk[:6], keys_now[:6])
+        if val[0] == 'ok' and len(gk) < len(ref[f][t0]):
+            return '%s: %d entries, the file held %d at the call' % (what, len(gk), len(ref[f][t0]))
+        j = 0
+        for tc, es in h['chunks']:
+            for e in es:
+                ok = [[x[1], x[2]] for u in range(t0, tc + 1) for x in ref[f][u] if x[0] == e[0]]
+                if e[1:] not in ok:
+                    return '%s: entry %d is %r, a pair the key never held between the call and its delivery (%r)' % (
+                        what, j, e, ok[:4])
+                j += 1
+    for f in range(nf):
+        exp = ref[f][len(prog)]
+        for i, nm in ((0, 'read_all_values()'), (1, 'read_all_values_from_file()')):
+            r = p['final'][f][i]
+            if r != ['ok', exp]:
+                return 'after the program, file %d: %s: %s' % (f, nm, _diff(r[1] if r[0] == 'ok' else r, exp))
+    return None
+
+
+def classify_prog(case, obs):
+    out = ['prog', 'prog-files=%d' % case['nf'], 'isz=real' if case['isz'] == 65536 else 'isz=patched-small']
+    prog = case['prog']
+    plan = prog_plan(case)
+    ref = reference_prog(case)
+    p = obs['prog']
+    for hid, (f, kind, t0, t1, quiet) in enumerate(plan):
+        out.append('held=' + ('file-reader' if kind == 'F' else 'handle'))
+        span = [prog[u] for u in range(t0, min(t1, len(prog)))]
+        if any(o[0] == 'H' and o[1] != f for o in span):
+            out.append('held-across=read-of-another-file')
+        if any(o[0] == 'H' and o[1] == f for o in span):
+            out.append('held-across=read-of-the-same-file')
+        if any(o[0] in 'WR' and o[1] == f for o in span) and ref[f][t0] != ref[f][min(t1, len(prog))]:
+            out.append('held-across=writes-to-its-file')
+        if any(o[0] == 'O' and o[1] == f for o in span):
+            out.append('held-across=close-reopen-of-its-file')
+        if 'held' in p and hid < len(p['held']):
+            h = p['held'][hid]
+            if len(h['chunks']) > 1:
+                out.append('consumed=in-pieces')
+            if not h['compare']:
+                out.append('held=handle-view-over-changing-file')
+            n = sum(len(es) for _, es in h['chunks'])
+            out.append('held-entries=%s' % ('0' if n == 0 else '1-3' if n < 4 else '4+'))
+    for a in range(len(plan)):
+        for b in range(a + 1, len(plan)):
+            if plan[b][2] < plan[a][3]:
+                out.append('alive-together=' + ('same-file' if plan[a][0] == plan[b][0] else 'two-files'))
+                break
+    for f in range(case['nf']):
+        used = 8 + sum(4 + len(key_str_bytes(k)) + (8 - (len(key_str_bytes(k)) + 4) % 8) + 16 for k in _prog_keys(case, f))
+        import mmap
+        if used > mmap.PAGESIZE:
+            out.append('prog-file-beyond-first-block')
+        if used > case['isz']:
+            out.append('prog-file-grown')
+    return out
+
+
+def key_str_bytes(k):
+    return key_str(k).encode('utf-8')
+
+
+def _prog_keys(case, f):
+    seen = []
+    for op in case['prog']:
+        if op[0] in ('W', 'R') and op[1] == f and key_str(op[2]) not in [key_str(x) for x in seen]:
+            seen.append(op[2])
+    return seen
+
+
+def shrinks_prog(case):
+    prog = case['prog']
+
+    def without(i):
+        op = prog[i]
+        rest = prog[:i] + prog[i + 1:]
+        if op[0] != 'H':
+            return rest
+        hid = sum(1 for o in prog[:i] if o[0] == 'H')
+        out = []
+        for o in rest:
+            if o[0] == 'N':
+                if o[1] == hid:
+                    continue
+                if o[1] > hid:
+                    o = ['N', o[1] - 1, o[2]]
+            out.append(o)
+        return out
+    for i in range(len(prog)):
+        yield {'isz': case['isz'], 'nf': case['nf'], 'prog': without(i)}
+    for i, op in enumerate(prog):
+        if op[0] in ('W', 'R') and isinstance(op[2], list) and op[2][1] > 1:
+            u, c, sfx = op[2]
+            yield {'isz': case['isz'], 'nf': case['nf'], 'prog': prog[:i] + [op[:2] + [[u, c // 2, sfx]] + op[3:]] + prog[i + 1:]}
+
+
+# ---- generators of prog cases
+def prog_structured(ctx):
+    def fill(f, n, tag, off=0):
+        return [['W', f, '%s%d/\xe9%s' % (tag, f, 'x' * (i + 3 * f)), SPECIAL_BITS[(i + off + 5 * f) % len(SPECIAL_BITS)], 1000 * f + i + off]
+                for i in range(n)]
+    for isz in (65536, 32):
+        two = fill(0, 7, 'proc') + fill(1, 12, 'proc')
+        # two files asked, then consumed: in order, reversed, element by element
+        yield {'isz': isz, 'nf': 2, 'prog': two + [['H', 0, 'F'], ['H', 1, 'F'], ['N', 0, -1], ['N', 1, -1]]}
+        yield {'isz': isz, 'nf': 2, 'prog': two + [['H', 1, 'F'], ['H', 0, 'F'], ['N', 0, -1], ['N', 1, -1]]}
+        yield {'isz': isz, 'nf': 2, 'prog': two + [['H', 0, 'F'], ['H', 1, 'F']] + [['N', i % 2, 1] for i in range(26)]}
+        yield {'isz': isz, 'nf': 2, 'prog': two + [['H', 0, 'D'], ['H', 1, 'D'], ['H', 0, 'F'], ['H', 1, 'F']] +
+               [['N', i % 4, 2] for i in range(30)]}
+        # the same keys in both files, different values; an empty second file; a one-entry file
+        yield {'isz': isz, 'nf': 2, 'prog': [['W', 0, 'k', 1, 2], ['W', 1, 'k', 3, 4], ['W', 0, 'l', 5, 6], ['W', 1, 'l', 7, 8],
+                                             ['H', 0, 'F'], ['H', 1, 'F'], ['H', 0, 'D'], ['H', 1, 'D']]}
+        yield {'isz': isz, 'nf': 2, 'prog': fill(0, 5, 'p') + [['H', 0, 'F'], ['H', 1, 'F'], ['H', 0, 'F'], ['N', 2, 2]]}
+        yield {'isz': isz, 'nf': 3, 'prog': fill(0, 3, 'p') + fill(1, 1, 'p') + fill(2, 9, 'p') +
+               [['H', 2, 'F'], ['H', 1, 'F'], ['H', 0, 'F'], ['N', 0, 4], ['H', 1, 'D'], ['N', 2, 1], ['N', 0, 2]]}
+        # one file at several moments: asked, more written (new keys, overwrites, growth, reopen), asked again
+        yield {'isz': isz, 'nf': 1, 'prog': fill(0, 4, 'a') + [['H', 0, 'F']] + fill(0, 6, 'a', 3) + [['H', 0, 'F']] +
+               [['W', 0, 'a0/\xe9', 0x7ff8000000000001, 0x8000000000000000], ['O', 0], ['H', 0, 'F'], ['W', 0, ['y', 300, ''], 9, 9],
+                ['H', 0, 'F'], ['N', 0, -1], ['N', 1, 3], ['N', 3, -1], ['N', 2, -1]]}
+        yield {'isz': isz, 'nf': 1, 'prog': fill(0, 4, 'a') + [['H', 0, 'D'], ['N', 0, 1]] + fill(0, 6, 'a', 3) + [['N', 0, 2], ['H', 0, 'D']] +
+               [['W', 0, ['y', 300, ''], 9, 9], ['N', 0, 1], ['N', 1, 2], ['O', 0], ['H', 0, 'D'], ['H', 0, 'F'], ['W', 0, 'late', 1, 1]]}
+        # handle results held while NOTHING is written (reads only): exact
+        yield {'isz': isz, 'nf': 2, 'prog': two + [['H', 0, 'D'], ['H', 1, 'D'], ['R', 0, 'proc0/\xe9'], ['H', 1, 'F'], ['N', 0, 3],
+                                             ['H', 0, 'F'], ['N', 1, 5], ['N', 0, -1], ['N', 3, -1]]}
+    # files beyond the first block of the reader (used > PAGESIZE): the second read() of the file reader
+    big0 = [['W', 0, ['k', 700, '%d' % i], i + 1, i + 2] for i in range(9)]
+    big1 = [['W', 1, ['€', 500, '%d' % i], 0x7ff8000000000000 + i + 1, i] for i in range(5)]
+    yield {'isz': 65536, 'nf': 2, 'prog': big0 + big1 + [['H', 0, 'F'], ['H', 1, 'F'], ['N', 0, 5], ['N', 1, -1], ['N', 0, -1]]}
+    yield {'isz': 65536, 'nf': 2, 'prog': big0 + [['W', 1, 'small', 1, 2], ['H', 0, 'F'], ['H', 1, 'F'], ['H', 0, 'F'], ['N', 2, 3]]}
+    yield {'isz': 65536, 'nf': 2, 'prog': big0 + [['W', 1, 'small', 1, 2], ['H', 1, 'F'], ['H', 0, 'F'], ['N', 0, -1]]}
+    yield {'isz': 65536, 'nf': 1, 'prog': big0[:4] + [['H', 0, 'F']] + big0[4:] + [['H', 0, 'F'], ['W', 0, ['z', 70000, ''], 1, 1], ['H', 0, 'F'],
+                                           ['N', 0, 2], ['N', 1, 2], ['N', 2, 2]]}
+
+
+def rand_prog(rng):
+    isz = 65536 if rng.random() < 0.3 else rng.choice((8, 16, 24, 40, 64, 128, 1000, 4096))
+    nf = rng.choice((1, 2, 2, 2, 3))
+    shared = [rand_key(rng) for _ in range(rng.randrange(0, 3))]
+    pools = []
+    for f in range(nf):
+        pool = list(shared)
+        while len(pool) < rng.choice((1, 2, 3, 5, 8)):
+            k = rand_key(rng)
+            if k not in pool:
+                pool.append(k)
+        if rng.random() < 0.12:
+            pool.append([rng.choice('ab\xe9€'), rng.randrange(300, 6000), rand_key(rng, 4)])
+        pools.append(pool)
+    prog = []
+    for f in range(nf):        # most files start with some content
+        for _ in range(rng.randrange(0, 6)):
+            prog.append(['W', f, rng.choice(pools[f]), rand_bits(rng), rand_bits(rng)])
+    nheld = 0
+    live = []
+    quiet_phase = rng.random() < 0.3        # only reads after the first hold: every result is exact
+    for _ in range(rng.randrange(3, 28)):
+        r = rng.random()
+        f = rng.randrange(nf)
+        if r < 0.3 and not (quiet_phase and nheld):
+            prog.append(['W', f, rng.choice(pools[f]), rand_bits(rng), rand_bits(rng)])
+        elif r < 0.36:
+            prog.append(['R', f, rng.choice(pools[f])])
+        elif r < 0.42 and not (quiet_phase and nheld):
+            prog.append(['O', f])
+        elif r < 0.68 or not live:
+            prog.append(['H', f, 'F' if rng.random() < 0.65 else 'D'])
+            live.append(nheld)
+            nheld += 1
+        else:
+            hid = rng.choice(live)
+            n = rng.choice((1, 1, 2, 3, -1))
+            prog.append(['N', hid, n])
+            if n < 0:
+                live.remove(hid)
+    return {'isz': isz, 'nf': nf, 'prog': prog}
